@@ -71,6 +71,28 @@ def run_world(spec, plan=None, opts=None, extra_argv=(), mode='in',
             with open(plan_path, 'w') as f:
                 json.dump(plan, f)
         trace = os.path.join(root, 'trace-%d.jsonl' % len(os.listdir(root)))
+        w.moved_to_defaults = []
+        if opts and opts.get('_defaults') is None and \
+                opts.get('_order') is None and launcher is None and \
+                script_parts is None and \
+                not os.environ.get('ZTR_NO_NEUTRAL'):
+            # 15 % of the world runs: the options in another order on the
+            # command line and some of them in the "defaults" of the script
+            # (what a buildout-generated bin/test passes); layer
+            # subprocesses get those as --default words
+            import random
+            import zlib
+            h = zlib.crc32(json.dumps(
+                [spec.get('prefix'), 'defaults', sorted(
+                    (k, repr(v)) for k, v in opts.items())],
+                default=str).encode())
+            if h % 100 < 15:
+                rng = random.Random(h)
+                keys = [k for k in vworld.SCALAR_KEYS
+                        if opts.get(k) not in (None, False, 0)]
+                moved = [k for k in keys if rng.random() < 0.6]
+                opts = dict(opts, _order=h >> 7, _defaults=moved)
+                w.moved_to_defaults = moved
         defaults, oargv = vworld.opts_split(opts or {})
         argv = [path_opt, root] + oargv + list(extra_argv)
         w.neutral = neutral_words(spec, opts, argv, root)
